@@ -89,6 +89,16 @@ def corpus(out, tier, seed, wd, trace=False, extra=None, light=False):
                         c.update(extra)
                     f.write(json.dumps(c, separators=(",", ":")) + "\n")
                     ncases += 1
+                if kw_copy.get(cfg):
+                    # compile once, execute in a working copy of the store (SimpleGarnishData's clone_* family): same meaning
+                    c = {"src": src, "ast": p["ast"], "trace": trace, "via": "clone", "stores": "simple"}
+                    if inputs[-1] is not None:
+                        c["input"] = inputs[-1]
+                    if extra:
+                        c.update(extra)
+                    f.write(json.dumps(c, separators=(",", ":")) + "\n")
+                    ncases += 1
+        kw_copy = {} if (trace or extra) else {"MC_Programs_q3": 1, "MC_Programs_calls6": 1, "MC_Programs_seqs4": 1, "MC_Programs_t3": 1, "MC_Programs_calls8": 1, "MC_Programs_seqs5": 1, "MC_Programs_partial5": 1, "MC_Programs_partial6": 1}
         if os.environ.get("VERIF_ONLY_CFG"):      # development aid: one generator config only (not used by any registered command)
             add(os.environ["VERIF_ONLY_CFG"], [None, {"t": "int", "v": 5}])
         elif tier == "quick" and light:       # traced runs are an order of magnitude larger: fewer inputs per program
@@ -144,7 +154,7 @@ def decide(out, obs, props, ncases, nprogs, st, rule):
     origin = {}
     for ln, o in enumerate(vlib.read_ndjson(obs)):
         if ln in failing:
-            origin[ln] = {k: o[k] for k in ("src", "ast", "input", "host", "inject", "trace", "stores") if k in o}
+            origin[ln] = {k: o[k] for k in ("src", "ast", "input", "host", "inject", "trace", "stores", "via") if k in o}
         if "ast" in o and progs.nontrivial(o["ast"]):
             nt.add(o["src"])
         if len(samples) < 5 and o.get("case", 0) % 1777 == 0 and "runs" in o:
@@ -164,7 +174,8 @@ def decide(out, obs, props, ncases, nprogs, st, rule):
         for f in fl["fails"]:
             if f["prop"] not in props:
                 continue
-            why = "%s [%s] %s %s" % (f["prop"], f["store"], f["why"], (f.get("msg") or "")[:90])
+            viac = " (in a working copy of the store)" if (origin.get(fl["line"]) or {}).get("via") == "clone" else ""
+            why = "%s [%s]%s %s %s" % (f["prop"], f["store"], viac, f["why"], (f.get("msg") or "")[:90])
             out.fail(f.get("kf", "NEW"), why, {"src": fl["src"], "run_case": origin.get(fl["line"]), "store": f["store"], "why": f["why"], "status": f["status"], "msg": f.get("msg", ""),
                                                "expected_value": fl.get("expv"), "expected_log": fl.get("explog"), "got": f.get("got"), "got_log": f.get("gotlog")},
                      family="%s [%s] %s %s" % (f["prop"], f["store"], f["why"], (f.get("msg") or "")[:60]))
